@@ -130,3 +130,28 @@ for f, comp in (('CH3CH2OH', {'C': 2, 'H': 6, 'O': 1}), ('H2O', {'H': 2, 'O': 1}
                 ('C12H22O11', {'C': 12, 'H': 22, 'O': 11}), ('NaCl', {'Na': 1, 'Cl': 1}), ('OHO', {'O': 2, 'H': 1})):
     contract('pmutt:parse_formula', P, label=f, args=dict(formula=Const(f)), ensures=['result == %r' % comp],
              cross_check=False)
+
+# ---- whole reaction strings: every section (also a transition state of several species) uses the caller's delimiters -----------
+def full_rxn():
+    return New(RX + 'Reaction', reactants=ListOf([named('A'), named('B')]), reactants_stoich=ListOf([Const(1.), Const(2.)]),
+               products=ListOf([named('C')]), products_stoich=ListOf([Const(3.)]),
+               transition_state=ListOf([named('T1'), named('T2')]), transition_state_stoich=ListOf([Const(1.), Const(2.)]))
+
+
+for sd, rd in (('+', '='), ('.', '>>'), (' & ', ' = '), (' + ', ' <=> ')):
+    for ts in (True, False):
+        mid = ('T1%s2T2%s' % (sd, rd)) if ts else ''
+        contract(RX + 'Reaction.to_string', P, label='sd=%r,rd=%r,TS=%s' % (sd, rd, ts),
+                 args=dict(self=full_rxn(), species_delimiter=Const(sd), reaction_delimiter=Const(rd), stoich_format=Const('.0f'),
+                           include_TS=Const(ts)),
+                 ensures=[('all-sections-with-the-given-delimiters', 'result == %r' % ('A%s2B%s%s3C' % (sd, rd, mid))),
+                          ('parses-back', "[s.name for s in pm.reaction.Reaction.from_string(result, {'A': self.reactants[0], 'B': self.reactants[1], "
+                                          "'C': self.products[0], 'T1': self.transition_state[0], 'T2': self.transition_state[1]}, "
+                                          "species_delimiter=species_delimiter.strip(), reaction_delimiter=reaction_delimiter.strip()).%s] == %r"
+                           % (('transition_state', ['T1', 'T2']) if ts else ('products', ['C'])))],
+                 cross_check=False)
+
+# the parser hands out a fresh dictionary: editing a result does not change what a later parse of the same formula returns
+for f, comp, key in (('CH3CH2OH', {'C': 2, 'H': 6, 'O': 1}, 'H'), ('H2O', {'H': 2, 'O': 1}, 'O')):
+    lemma('parse_formula-after-editing-an-earlier-result[%s]' % f, P, forall=dict(), given=[],
+          prove=[('same-composition-again', 'spec.util.call_edit_call(pm.parse_formula, %r, %r) == %r' % (f, key, comp))])
